@@ -17,8 +17,10 @@ Lemma build_codesep : build [TOp OP_CODESEPARATOR] = Ok [xab].
 Proof. reflexivity. Qed.
 Lemma hash_one_eq : HASH_ONE = one32.
 Proof. reflexivity. Qed.
-Lemma base_eq ht : Z.land ht Sighash.mask_1f = sh_base ht.
-Proof. change Sighash.mask_1f with 0x1f. exact (land_1f ht). Qed.
+Lemma base_eq_none ht : Z.land ht RSH_mask_none = sh_base ht.
+Proof. change RSH_mask_none with 0x1f. exact (land_1f ht). Qed.
+Lemma base_eq_single ht : Z.land ht RSH_mask_single = sh_base ht.
+Proof. change RSH_mask_single with 0x1f. exact (land_1f ht). Qed.
 Lemma anyone_eq ht : 0 <= ht < 256 -> negb (Z.land ht SIGHASH_ANYONECANPAY =? 0) = sh_anyone ht.
 Proof. exact (Bip143.anyone_eq ht). Qed.
 Lemma pack_ht ht : 0 <= ht < 256 -> pack (nth_fmt 0 fmt_RawSignatureHash) ht = Ok (i 4 ht).
@@ -57,14 +59,14 @@ Definition other_in (keep : bool) (y : txin) : txin :=
 Definition mine_in (sub : bytes) (x : txin) : txin :=
   {| ti_prevout := ti_prevout x; ti_script := sub; ti_seq := ti_seq x |}.
 
-Lemma zero_other_gt l : forall i k, k < i -> zero_other_seqs l i k = map (fun y => with_seq y seq_zero) l.
+Lemma zero_other_gt z l : forall i k, k < i -> zero_other_seqs z l i k = map (fun y => with_seq y z) l.
 Proof.
   induction l as [|y l IH]; intros i k Hk; [reflexivity|]. cbn [zero_other_seqs map].
   destruct (Z.eqb_spec i k); [lia|]. cbn [negb]. f_equal. apply IH. lia.
 Qed.
-Lemma zero_other_mid l1 v l2 : forall i,
-  zero_other_seqs (l1 ++ v :: l2) i (i + Z.of_nat (length l1))
-  = map (fun y => with_seq y seq_zero) l1 ++ v :: map (fun y => with_seq y seq_zero) l2.
+Lemma zero_other_mid z l1 v l2 : forall i,
+  zero_other_seqs z (l1 ++ v :: l2) i (i + Z.of_nat (length l1))
+  = map (fun y => with_seq y z) l1 ++ v :: map (fun y => with_seq y z) l2.
 Proof.
   induction l1 as [|y l1 IH]; intros i.
   - cbn [app length map zero_other_seqs]. replace (i + Z.of_nat 0) with i by lia. rewrite Z.eqb_refl. cbn [negb].
@@ -180,10 +182,11 @@ Proof.
   rewrite map_length in N1, N2. rewrite N1. cbn [bind]. rewrite N2. cbn [bind].
   change (with_script (other_in true x) sub) with (mine_in sub x).
   (* the zeroing loop *)
-  pose proof (zero_other_mid (map (other_in true) l1) (mine_in sub x) (map (other_in true) l2) 0) as Zs.
+  pose proof (zero_other_mid 0 (map (other_in true) l1) (mine_in sub x) (map (other_in true) l2) 0) as Zs.
   rewrite map_length, !map_map in Zs. cbn [Z.add] in Zs.
-  change (map (fun x0 : txin => with_seq (other_in true x0) seq_zero)) with (map (other_in false)) in Zs.
-  rewrite !base_eq. change SIGHASH_NONE with 2. change SIGHASH_SINGLE with 3.
+  change (map (fun x0 : txin => with_seq (other_in true x0) 0)) with (map (other_in false)) in Zs.
+  change RSH_seq_none with 0. change RSH_seq_single with 0.
+  rewrite base_eq_none, base_eq_single. change SIGHASH_NONE with 2. change SIGHASH_SINGLE with 3.
   fold (sh_none ht). fold (sh_single ht).
   unfold sighash_preimage, ser_inputs, ser_outputs. cbn [tx_vin tx_vout tx_version tx_lock]. fold sub.
   rewrite ser_inputs_split, ser_input_mine.
@@ -226,10 +229,10 @@ Proof.
   destruct (find_and_delete script sep) as [sub|]; [|reflexivity]. cbn [bind].
   destruct (py_nth _ inIdx) as [txin|]; [|reflexivity]. cbn [bind].
   destruct (py_set _ inIdx _) as [vin|]; [|reflexivity]. cbn [bind tx_vin tx_vout tx_version tx_lock tx_wit].
-  destruct (Z.land ht Sighash.mask_1f =? SIGHASH_NONE).
+  destruct (Z.land ht RSH_mask_none =? SIGHASH_NONE).
   { cbn [bind]. destruct (negb (Z.land ht SIGHASH_ANYONECANPAY =? 0)); cbn [tx_vin];
       [destruct (py_nth _ inIdx); reflexivity | reflexivity]. }
-  destruct (Z.land ht Sighash.mask_1f =? SIGHASH_SINGLE).
+  destruct (Z.land ht RSH_mask_single =? SIGHASH_SINGLE).
   { destruct (inIdx >=? len (tx_vout t)); [reflexivity|].
     destruct (py_nth (tx_vout t) inIdx); [|reflexivity]. cbn [bind tx_vin].
     destruct (negb (Z.land ht SIGHASH_ANYONECANPAY =? 0)); cbn [tx_vin];
